@@ -8,7 +8,6 @@ import (
 	"io"
 	"net/http"
 	"net/http/httptest"
-	"os"
 	"strings"
 	"testing"
 	"time"
@@ -39,6 +38,23 @@ type Case struct {
 	Stack  string     `json:"stack"`  // part store base: sql | fs
 	Req    sigreq.Req `json:"req"`
 	Muts   []Mut      `json:"muts,omitempty"`
+}
+
+var (
+	pool      = map[string]*stacks.Instance{}
+	bucketSeq int
+)
+
+func acquire(env *ev.Env, stack string) (*stacks.Instance, error) {
+	if inst := pool[stack]; inst != nil {
+		return inst, nil
+	}
+	inst, err := stacks.Open(env.TempDir(), stacks.Layout{Default: stack}, stacks.Options{})
+	if err != nil {
+		return nil, err
+	}
+	pool[stack] = inst
+	return inst, nil
 }
 
 type allowAll struct{}
@@ -246,7 +262,6 @@ func run(env *ev.Env, c Case) (o ev.Outcome) {
 	q := c.Req
 	q.Host = apiHost + ":9000"
 	q.Method = "PUT"
-	q.Bucket = "bucket"
 	o.Class("auth:" + c.Auth)
 	o.Class("mode:" + q.Mode)
 	o.Class("target:" + c.Target)
@@ -257,22 +272,24 @@ func run(env *ev.Env, c Case) (o ev.Outcome) {
 	if q.Encoding2 != "" {
 		o.Class("second-encoding")
 	}
-	dir := env.TempDir()
-	defer os.RemoveAll(dir)
-	inst, err := stacks.Open(dir, stacks.Layout{Default: c.Stack}, stacks.Options{})
+	// Opening a fresh SQLite database (38 migrations) dominates the cost of a case, and the storage is only
+	// the sink here: one instance per part-store kind is shared by the cases of a process, every case works in
+	// its own bucket. An instance wedged by a handler panic (leaked write transaction) is abandoned.
+	inst, err := acquire(env, c.Stack)
 	if err != nil {
 		o.Failf("harness: open storage: %v", err)
 		return
 	}
 	wedged := false
 	defer func() {
-		if !wedged {
-			inst.Close()
+		if wedged {
+			delete(pool, c.Stack)
 		}
-		// a wedged instance (leaked write transaction after a handler panic) is abandoned: Close could block
 	}()
 	ctx := context.Background()
-	bucket, _ := storage.NewBucketName("bucket")
+	bucketSeq++
+	q.Bucket = fmt.Sprintf("case-%06d", bucketSeq)
+	bucket, _ := storage.NewBucketName(q.Bucket)
 	if err := inst.Storage.CreateBucket(ctx, bucket); err != nil {
 		o.Failf("harness: create bucket: %v", err)
 		return
@@ -355,7 +372,7 @@ func run(env *ev.Env, c Case) (o ev.Outcome) {
 				}
 			}
 		}
-		g := get(h, "bucket", key)
+		g := get(h, q.Bucket, key)
 		switch g.status {
 		case 200:
 			st.exists, st.content, st.encoding = true, g.body, g.header.Get("Content-Encoding")
@@ -571,6 +588,9 @@ func directed(env *ev.Env) []Case {
 					c := Case{Auth: auth, Target: "put", Stack: "sql", Req: sigreq.Req{Mode: mode, Region: "us-east-1", Body: gen.BodySpec{Kind: "text", Len: 150}, Chunks: []int{7, 64, 1}, Trailer: alg, Framing: "sdk", TE: te}}
 					if auth == "enabled" {
 						for _, k := range []string{"data-flip", "chunk-sig", "trailer-value", "trailer-sig", "trailer-remove", "len-minus", "len-plus", "len-huge", "len-junk", "shrink", "drop-chunk", "dup-chunk", "swap-chunks", "truncate", "oversize", "oversize-same-length"} {
+							if k == "len-huge" && !(alg == "crc32" && te) {
+								continue // wedges the instance (KF-C30-3): keep it to one directed case per mode
+							}
 							c.Muts = append(c.Muts, Mut{Kind: k, Chunk: 1, Off: 3})
 						}
 					}
